@@ -59,18 +59,18 @@ def _enclosing_lists(ctx, rep, cl):
         try:
             v = folder.module_const(mod, nm)
             lists[nm] = v
-            ok_lists &= isinstance(v, list) and all(isinstance(x, str) and x for x in v)
+            ok_lists &= isinstance(v, (list, tuple)) and all(isinstance(x, str) and x for x in v)
         except Unfoldable:
             ok_lists = False
     rep.ob(cl + ".enclosing-constants", f.name, ok_lists, "enclosing head/tail texts fold to constant lists of non-empty strings: %s" % lists, W(f))
     # balanced: what may be stripped in front has its counterpart behind, so brackets/quotes are restored in place
-    H, T = lists.get("_PASSWORD_ENCLOSING_HEAD_TEXT") or [], lists.get("_PASSWORD_ENCLOSING_TAIL_TEXT") or []
+    H, T = list(lists.get("_PASSWORD_ENCLOSING_HEAD_TEXT") or []), list(lists.get("_PASSWORD_ENCLOSING_TAIL_TEXT") or [])
     need_h = ["\\'", '\\"', "'", '"', "[", "{"]
     need_t = ["\\'", '\\"', "'", '"', "]", "}", ";", ","]
     miss = [x for x in need_h if x not in H] + [x for x in need_t if x not in T]
     rep.ob(cl + ".enclosing-complete", f.name, not miss, "enclosing texts that are kept around a secret: head %s tail %s; missing %s (a missing closing bracket/terminator would be swallowed into the pseudonym)" % (H, T, miss), W(f), key=cl + ".enclosing-complete|_extract_enclosing_text")
-    inp = ("param", f.params[0])
-    hp, tp = ("param", f.params[1]), ("param", f.params[2])
+    inp = ("param", f.mparams[0])
+    hp, tp = ("param", f.mparams[1]), ("param", f.mparams[2])
     ln = lambda t: ("call", ("builtin", "len"), (t,), ())
     for uid, li in fp.loops.items():
         if li.iter is None or li.iter[0] != "global":
@@ -80,20 +80,21 @@ def _enclosing_lists(ctx, rep, cl):
         for vname, (vpre, vposts) in li.carried.items():
             for post in vposts:
                 cv = ("carried", vname, li.uid)
-                if post == cv or vname in (f.params[1], f.params[2]):
-                    continue
+                if post == cv or vname in (f.mparams[1], f.mparams[2]) or post[0] == "const":
+                    continue  # unchanged, the collected texts (checked below), or a progress flag
                 want = ("sub", cv, ("slice", ln(lv0), None, None)) if is_head else ("sub", cv, ("slice", None, ("unop", "-", ln(lv0)), None))
                 if True:
                     rep.ob(cl + ".enclosing-strip", "%s:%s" % (f.name, "head" if is_head else "tail"), post == want, "after moving an enclosing text the value becomes %s; expected exactly that text removed (%s)" % (show(post), show(want)), W(f, li.node), key="%s.enclosing-strip|%s" % (cl, "head" if is_head else "tail"))
         for bp in li.body_paths:
-            t = bp.truth(("call", ("attr", ("carried", [n for n in li.carried if n not in (f.params[1], f.params[2])][0] if [n for n in li.carried if n not in (f.params[1], f.params[2])] else "val", li.uid), "startswith" if is_head else "endswith"), (lv0,), ()))
+            vals = [n for n, (vpre, vposts) in li.carried.items() if n not in (f.mparams[1], f.mparams[2]) and not all(x[0] == "const" or x == ("carried", n, li.uid) for x in vposts)]
+            t = bp.truth(("call", ("attr", ("carried", vals[0] if vals else "val", li.uid), "startswith" if is_head else "endswith"), (lv0,), ()))
             changed = any(bp.env.get(n) != ("carried", n, li.uid) for n in li.carried)
             if changed:
                 rep.ob(cl + ".enclosing-guard", "%s:%s" % (f.name, "head" if is_head else "tail"), t is True, "enclosing text is moved only when the value really %s it" % ("starts with" if is_head else "ends with"), W(f, li.node), key="%s.enclosing-guard|%s" % (cl, "head" if is_head else "tail"), nontrivial=False)
     for uid, li in fp.loops.items():
         for bp in li.body_paths:
             lv = ("loopvar", li.uid, li.iter, ())
-            for name, role in ((f.params[1], "head"), (f.params[2], "tail")):
+            for name, role in ((f.mparams[1], "head"), (f.mparams[2], "tail")):
                 if name not in li.carried:
                     continue
                 post = bp.env.get(name)
@@ -167,7 +168,7 @@ def _one_lookup_per_run(ctx, rep, cl):
         if f_rmi in cs.funcs():
             n += 1
             b = bind_args(cs.term, f_rmi) or {}
-            lk = b.get(f_rmi.params[2])
+            lk = b.get(f_rmi.mparams[2])
             rep.ob(cl + ".lookup-argument", "anonymize_io", lk == ("attr", SELF, "pwd_lookup") and bool(cs.loops), "replace_matching_item receives %s as lookup; expected the per-run field self.pwd_lookup itself (not a copy, not a per-file object)" % show(lk), cs.where, key=cl + ".lookup-argument|anonymize_io")
     rep.ob(cl + ".lookup-call-site", "anonymize_io", n == 1, "secret stage call sites: %d" % n, W(f_io), nontrivial=False)
     # no local alias of the lookup hoisted out of the loop
@@ -314,7 +315,7 @@ def reserved_flow(ctx, rep, cl):
     for cs in G.by_owner.get(f_io.qualname, []):
         if f_rmi in cs.funcs():
             b = bind_args(cs.term, f_rmi) or {}
-            secret_term = b.get(f_rmi.params[4], ("global", "netconan.sensitive_item_removal", "default_reserved_words"))
+            secret_term = b.get(f_rmi.mparams[4], ("global", "netconan.sensitive_item_removal", "default_reserved_words"))
     n_word = n_sec = 0
     for path in fp.paths:
         if path.kind == "raise" or not path.feasible():
@@ -366,13 +367,13 @@ def c10(ctx, rep):
     init = swa.find_method("__init__")
     rep.analysed(init)
     loc = "%s:%d" % (swa.module.relpath, swa.node.lineno)
-    sw = ("param", init.params[1])
+    sw = ("param", init.mparams[1])
     # 1/2/3 pattern construction
     f_rx = swa.find_method("_generate_sensitive_word_regex")
     if f_rx is None:
         raise AnalysisError("anchor _generate_sensitive_word_regex not found")
     rep.analysed(f_rx)
-    wordsp = ("param", f_rx.params[1])
+    wordsp = ("param", f_rx.mparams[1])
     for path in A.paths(f_rx).paths:
         r = path.returned()
         w = W(f_rx)
@@ -463,7 +464,7 @@ def c10(ctx, rep):
     # 4 application
     f_a = swa.find_method("anonymize")
     rep.analysed(f_a)
-    lp = ("param", f_a.params[1])
+    lp = ("param", f_a.mparams[1])
     mod = f_a.module.name
     SPLIT = ("call", ("global", mod, "_split_line"), (lp,), ())
     n_sub = 0
@@ -497,11 +498,11 @@ def c10(ctx, rep):
     if f_l is not None and f_g is not None:
         rep.analysed(f_g)
         for path in A.paths(f_l).paths:
-            mp = ("param", f_l.params[1])
+            mp = ("param", f_l.mparams[1])
             want = ("call", ("attr", SELF, f_g.name), (("call", ("attr", mp, "group"), (("const", 0),), ()),), ())
             want0 = ("call", ("attr", SELF, f_g.name), (("call", ("attr", mp, "group"), (), ()),), ())
             rep.ob("C10.pseudonym-of-matched-text", f_l.name, path.returned() in (want, want0), "callback returns %s; expected the pseudonym of match.group(0)" % show(path.returned()), W(f_l), key="C10.pseudonym-of-matched-text|_lookup_anon_word")
-        wp = ("param", f_g.params[1])
+        wp = ("param", f_g.mparams[1])
         try:
             n = folder.module_const(mod, "_ANON_SENSITIVE_WORD_LEN")
         except Unfoldable:
@@ -538,7 +539,7 @@ def c10(ctx, rep):
     for cs in G.by_owner.get(f_fa.qualname, []):
         if swa in cs.classes():
             b = bind_args(cs.term, init, 1) or {}
-            rep.ob("C10.wiring", "FileAnonymizer.__init__", b.get(init.params[1]) == ("param", "sensitive_words") and b.get("salt") == ("attr", SELF, "salt"), "SensitiveWordAnonymizer(%s)" % {k: show(v) for k, v in b.items()}, cs.where, key="C10.wiring|FileAnonymizer.__init__")
+            rep.ob("C10.wiring", "FileAnonymizer.__init__", b.get(init.mparams[1]) == ("param", "sensitive_words") and b.get("salt") == ("attr", SELF, "salt"), "SensitiveWordAnonymizer(%s)" % {k: show(v) for k, v in b.items()}, cs.where, key="C10.wiring|FileAnonymizer.__init__")
     order = [s for s, _ in stage_order(ctx)]
     ok = "word" in order and all(order.index("word") > order.index(x) for x in ("pwd", "ip6", "ip4") if x in order) and order[order.index("word") + 1:] in ([], ["as"])
     rep.ob("C10.stage-order", "anonymize_io", ok, "stage order %s; the word stage must run after secrets and addresses, only the AS stage (digits) after it" % order, W(p.find_function("FileAnonymizer.anonymize_io")), key="C10.stage-order|anonymize_io")
